@@ -270,5 +270,5 @@ def cases(draw, prof, maxlen):
 PROFILE = specgen.profile(max_defs=6, depth=2, domain_rate=0.01)
 PARTS = [
     Part("histories", check, strategy=lambda ctx: cases(PROFILE, 8 if ctx.tier == "quick" else 16),
-         budget={"quick": 120, "thorough": 1500}),
+         budget={"quick": 500, "thorough": 2500}),
 ]
